@@ -24,9 +24,10 @@ from hypothesis import strategies as st
 
 @st.composite
 def _strategy(draw, tier):
-    case = draw(graph.graph_case(max_tasks=8 if tier == "quick" else 12, outcomes="some", max_bad=1,
-                                 kinds=("cmd", "exp", "group", "combine"), kind_weights=(2, 4, 1, 1),
-                                 tape_max=30, flags=("again",)))
+    general = graph.graph_case(max_tasks=8 if tier == "quick" else 12, outcomes="some", max_bad=1,
+                               kinds=("cmd", "exp", "group", "combine"), kind_weights=(2, 4, 1, 1),
+                               tape_max=30, flags=("again",))
+    case = draw(st.one_of(general, general, general, graph.sandwich_case(flags=("again",), p_fail_den=12)))
     case["second"] = draw(st.sampled_from([None, None, "same", "again"]))
     # one dependency listed twice under two spellings (":d" and "//pkg:d"): whatever Conductor makes of such a
     # definition (it is rejected today), no task may run twice
